@@ -480,21 +480,21 @@ pub mod refimpl {
 }
 
 // ---------------------------------------------------------------------------------------------
-fn clean_opts() -> c05::GenOpts { c05::GenOpts { stream_dict_strings: false, nested_streams: false, meta_dicts: false, bad_length: false } }
+fn clean_opts() -> c05::GenOpts { c05::GenOpts { stream_dict_strings: true, nested_streams: false, meta_dicts: false, bad_length: false } }
 
 /// drop the constructs on which lopdf is known / expected to differ from ISO (each has its own witness)
-fn iso_clean_doc(r: &mut Rng) -> Document {
+fn iso_clean_doc(r: &mut Rng, allow_crypt: bool) -> Document {
     loop {
         let d = c05::gen_doc(r, &clean_opts());
-        let txt = c05::show_doc(&d);
-        // no Crypt filters at all in the main streams (override handling is compared in C05 and in witness F-C06-d)
-        if txt.contains(" N4372797074") { continue; }
+        // Crypt filters: only with V >= 4 (they do not exist before) and in well-formed Filter arrays
+        let (mut any, mut odd) = (false, false);
+        for o in d.objects.values() { c05::scan_crypt(o, &mut any, &mut odd); }
+        if odd || (any && !allow_crypt) { continue; }
         // Metadata *dictionaries* (not streams): lopdf exempts them, ISO does not — outside the main streams
         if d.objects.values().any(has_meta_dict) { continue; }
         return d;
     }
 }
-
 fn has_meta_dict(o: &Object) -> bool {
     match o {
         Object::Array(a) => a.iter().any(has_meta_dict),
@@ -553,8 +553,8 @@ fn prim_cross(c: &mut Ctx) {
 fn gen_cfg_a(r: &mut Rng, forced: Option<Ver>) -> Config {
     loop {
         let mut cfg = c05::gen_config(r, forced.clone());
-        // stay out of registered-deviation territory: owner password present (F-C06-e), PDFDoc-encodable for R<=4 (F-C05-b)
-        if cfg.owner.is_empty() { cfg.owner = "own".into(); }
+        // stay out of registered-deviation territory: PDFDoc-encodable passwords for R<=4 (F-C05-b)
+        if cfg.owner.is_empty() && cfg.revision() >= 5 { cfg.owner = "own".into(); }
         if cfg.revision() <= 4 && !(cfg.user.chars().all(|ch| (ch as u32) < 0x7f) && cfg.owner.chars().all(|ch| (ch as u32) < 0x7f)) { continue; }
         return cfg;
     }
@@ -563,7 +563,7 @@ fn gen_cfg_a(r: &mut Rng, forced: Option<Ver>) -> Config {
 /// Direction A: lopdf encrypts; reference + Lean spec recompute and decrypt
 fn dir_a(c: &mut Ctx, r: &mut Rng, forced: Option<Ver>, idx: u64) {
     let cfg = gen_cfg_a(r, forced);
-    let orig = iso_clean_doc(r);
+    let orig = iso_clean_doc(r, cfg.revision() >= 4);
     let case = json!({"config": format!("{:?}", cfg), "doc": c05::show_doc(&orig)});
     let state = match guard(|| cfg.make_state(&orig)) { Ok(Ok(s)) => s, other => { c.oracle_fail("encrypt-failed", &format!("{:?}", other.map(|x| x.map(|_| ()))), case); return; } };
     let mut enc = orig.clone();
@@ -582,7 +582,8 @@ fn dir_a(c: &mut Ctx, r: &mut Rng, forced: Option<Ver>, idx: u64) {
     let n = d.key_bytes();
     if rev <= 4 {
         // O, U, key recomputed by the reference (Algorithms 3, 2, 4/5)
-        let o = refimpl::alg3(Some(&owner_b), &user_b, rev, n);
+        let owner_opt: Option<&[u8]> = if owner_b.is_empty() { None } else { Some(&owner_b) };   // an empty owner password = none
+        let o = refimpl::alg3(owner_opt, &user_b, rev, n);
         let key = refimpl::alg2(&user_b, &o, p, &id0, rev, n, d.encrypt_metadata);
         let u = refimpl::alg4_5(&key, &id0, rev);
         let ul = if rev == 2 { 32 } else { 16 };
@@ -590,7 +591,7 @@ fn dir_a(c: &mut Ctx, r: &mut Rng, forced: Option<Ver>, idx: u64) {
         if u[..ul] != d.u[..ul] { c.oracle_fail("U-differs", "U differs from Algorithm 4/5", case.clone()); }
         if key != state.file_encryption_key() { c.oracle_fail("key-differs", "file key differs from Algorithm 2", case.clone()); }
         // Lean spec on the same inputs, compared with lopdf's values
-        c.corr(format!("c6_dict {} {} {}", params_line(rev, n, p, d.encrypt_metadata, &id0), hex_tok(&owner_b), hex_tok(&user_b)),
+        c.corr(format!("c6_dict {} {} {}", params_line(rev, n, p, d.encrypt_metadata, &id0), if owner_b.is_empty() { "none".to_string() } else { hex_tok(&owner_b) }, hex_tok(&user_b)),
                format!("ok {} {} {}", hex_tok(state.owner_value()), hex_tok(&state.user_value()[..ul]), hex_tok(state.file_encryption_key())));
         // authentication of a few passwords: lopdf vs Lean spec (and reference)
         for pw in [cfg.user.clone(), cfg.owner.clone(), "nope".to_string(), String::new()] {
@@ -637,6 +638,8 @@ fn dir_a(c: &mut Ctx, r: &mut Rng, forced: Option<Ver>, idx: u64) {
         };
         let is_meta = matches!(o, Object::Stream(s) if matches!(s.dict.get(b"Type"), Ok(Object::Name(n)) if n == b"Metadata" || n == b"XRef"));
         if is_meta { continue; }
+        // streams that select their own crypt filter are covered by the whole-document comparison
+        if matches!(o, Object::Stream(s) if s.dict.has(b"Filter") && show_obj(s.dict.get(b"Filter").unwrap()).contains("N4372797074")) { continue; }
         let m = refimpl::method_of(&d, if is_str { d.strf.as_deref() } else { d.stmf.as_deref() });
         let mt = match m { refimpl::Method::V2 => "V2", refimpl::Method::AesV2 => "AESV2", refimpl::Method::AesV3 => "AESV3", _ => continue };
         let iv = if mt == "V2" { vec![] } else { ct[..16].to_vec() };
@@ -645,12 +648,14 @@ fn dir_a(c: &mut Ctx, r: &mut Rng, forced: Option<Ver>, idx: u64) {
         budget -= 1;
     }
     // whole document: the reference opens lopdf's output with both passwords, Algorithm 13 included
+    let owner_absent = rev <= 4 && owner_b.is_empty();
     for (who, pw, want_owner) in [("user", &user_b, false), ("owner", &owner_b, true)] {
+        if owner_absent && who == "owner" { continue; }
         match refimpl::decrypt_document(&enc, pw, true, false) {
             Ok((dd, is_owner)) => {
                 if let Err(w) = c05::docs_same_mod_length(&orig, &dd) { c.oracle_fail("reference-decrypt-differs", &format!("{} password: {}", who, w), case.clone()); }
                 else { c.count(&format!("a.ref_decrypt_ok.{}", who)); }
-                if is_owner != want_owner && owner_b != user_b { c.oracle_fail("role-differs", &format!("{} password authenticated as owner={}", who, is_owner), case.clone()); }
+                if is_owner != want_owner && owner_b != user_b && !owner_absent { c.oracle_fail("role-differs", &format!("{} password authenticated as owner={}", who, is_owner), case.clone()); }
             }
             Err(w) => c.oracle_fail("reference-rejects", &format!("{} password: {}", who, w), case.clone()),
         }
@@ -686,21 +691,24 @@ fn gen_params_b(r: &mut Rng, idx: u64) -> (refimpl::EncParams, String, String) {
         break;
     }
     (refimpl::EncParams { v, r: rr, key_bits: bits, p, encrypt_metadata: v < 4 || r.chance(1, 2), cf, stmf, strf,
-        owner: Some(owner.as_bytes().to_vec()), user: user.as_bytes().to_vec(), file_key: if r6 { r.bytes(32) } else { vec![] },
-        write_length: v == 2 || (v == 4 && r.chance(1, 2)) || (v == 5 && r.chance(1, 2)), direct_encrypt_dict: false, in_stream_dicts: true }, user, owner)
+        owner: if !r6 && r.chance(1, 6) { None } else { Some(owner.as_bytes().to_vec()) }, user: user.as_bytes().to_vec(), file_key: if r6 { r.bytes(32) } else { vec![] },
+        write_length: v == 2 || (v == 4 && r.chance(1, 2)) || (v == 5 && r.chance(1, 2)), direct_encrypt_dict: r.chance(1, 4), in_stream_dicts: true }, user, owner)
 }
 
 /// Direction B: the reference encrypts; lopdf authenticates and decrypts (in memory and from a file)
 fn dir_b(c: &mut Ctx, r: &mut Rng, idx: u64) {
     let (q, user, owner) = gen_params_b(r, idx);
-    let orig = iso_clean_doc(r);
+    // no owner password: the user password is also the owner password (Algorithm 3 step a)
+    let owner = if q.owner.is_none() { c.count("b.owner_absent"); user.clone() } else { owner };
+    if q.direct_encrypt_dict { c.count("b.direct_encrypt_dict"); }
+    let orig = iso_clean_doc(r, q.v >= 4);
     let mut rr = r.clone();
     let (enc, d, key) = refimpl::encrypt_document(&orig, &q, &mut |n| rr.bytes(n));
     let case = json!({"params": format!("{:?}", q), "doc": c05::show_doc(&orig)});
     c.nontrivial(&c05::show_doc(&enc));
     c.count(&format!("b.rev{}", q.r));
     // sanity of the reference itself: it opens its own output with both passwords
-    for pw in [&q.user, q.owner.as_ref().unwrap()] {
+    for pw in [&q.user, &owner.as_bytes().to_vec()] {
         if !matches!(refimpl::decrypt_document(&enc, pw, true, false), Ok((ref dd, _)) if c05::docs_same_mod_length(&orig, dd).is_ok()) { c.oracle_fail("reference-self-roundtrip", "", case.clone()); return; }
     }
     // the model of lopdf's code on the same input (user password): correspondence with the real decrypt
@@ -721,13 +729,16 @@ fn dir_b(c: &mut Ctx, r: &mut Rng, idx: u64) {
     if !au { c.oracle_fail("lopdf-rejects-user", "authenticate_user_password rejects the user password of a reference-encrypted document", case.clone()); }
     if !ao { c.oracle_fail("lopdf-rejects-owner", "authenticate_owner_password rejects the owner password of a reference-encrypted document", case.clone()); }
     if enc.authenticate_password("definitely wrong").is_ok() { c.oracle_fail("lopdf-accepts-wrong", "", case.clone()); }
-    // decryption; R<=4 owner = F-C05-a territory: correspondence only, witnessed separately
+    // decryption with both passwords, every revision
     if q.r <= 4 {
         match run(c, &enc, &user, "user") {
             Ok(dd) => if let Err(w) = c05::docs_same_mod_length(&orig, &dd) { c.oracle_fail("lopdf-decrypt-differs", &w, case.clone()); } else { c.count("b.lopdf_decrypt_ok.user"); },
             Err(cls) => c.oracle_fail("lopdf-decrypt-fails", &cls, case.clone()),
         }
-        let _ = run(c, &enc, &owner, "owner"); c.count("b.owner_r234_corr_only");
+        match run(c, &enc, &owner, "owner") {
+            Ok(dd) => if let Err(w) = c05::docs_same_mod_length(&orig, &dd) { c.oracle_fail("lopdf-decrypt-differs", &format!("owner password: {}", w), case.clone()); } else { c.count("b.lopdf_decrypt_ok.owner_r234"); },
+            Err(cls) => c.oracle_fail("lopdf-decrypt-fails", &format!("owner password, R{}: {}", q.r, cls), case.clone()),
+        }
     } else {
         match run(c, &enc, &owner, "owner") {
             Ok(dd) => if let Err(w) = c05::docs_same_mod_length(&orig, &dd) { c.oracle_fail("lopdf-decrypt-differs", &w, case.clone()); } else { c.count("b.lopdf_decrypt_ok.owner"); },
